@@ -322,7 +322,7 @@ class Inputs:
 
             e = []
             for b, s in enumerate(sizes):
-                ks = sorted(rg.choice(np.arange(0, 8), size=s, replace=False).tolist())
+                ks = sorted(rg.choice(np.arange(1, 9), size=s, replace=False).tolist())
                 e += [sympy.Rational(12 * b + k, 4) for k in ks]
             if w.get("deg") and sizes[0] >= 2:
                 e[1] = e[0]
